@@ -2,7 +2,9 @@
 (* Exhaustive design-level check of C01: the loop of b_complete_struct_or_union as a state
    machine (one AddField action per iteration, Finish = CffiFinish applied to the current state)
    against the ideal GCC/x86-64 layout, for EVERY sequence of at most MaxFields members drawn
-   from Alphabet, for structs and unions, natural / packed / pack=2 / pack=4.  Every prefix of a
+   from Alphabet, for structs and unions, natural / packed / pack=2 / pack=4 and (Hist = TRUE) for
+   every declaration history: the tag first mentioned without a body in an earlier cdef() made
+   with any of the four packing options, in four forms.  Every prefix of a
    member sequence is itself a declaration, so the invariants are checked on all of them.
 
    The same run prints the declarations of at most PrintUpTo members (<<"DECL", kind, pack,
@@ -10,9 +12,10 @@
    gcc on them and has Trace_Layout validate the answers (spec -> code binding).           *)
 EXTENDS Layout
 
-CONSTANTS MaxFields, PrintUpTo
-VARIABLES kind, pack, idx, mst, ist, cls
-vars == <<kind, pack, idx, mst, ist, cls>>
+CONSTANTS MaxFields, PrintUpTo,
+          Hist        \* TRUE: also enumerate the declaration histories (first mention under another packing)
+VARIABLES kind, pack, idx, mst, ist, cls, hist
+vars == <<kind, pack, idx, mst, ist, cls, hist>>
 
 PrimT(n)   == [c |-> "prim", name |-> n]
 ArrT(t, n) == [c |-> "arr", of |-> t, n |-> n]
@@ -58,7 +61,11 @@ Alpha4 == Plain(4)
 Alphabet(pk) == CASE pk = 0 -> Alpha0 [] pk = 1 -> Alpha1 [] pk = 2 -> Alpha2 [] pk = 4 -> Alpha4
 
 Fields(pk, ix) == [k \in 1..Len(ix) |-> Alphabet(pk)[ix[k]]]
-TheNode == Node(kind, pack, Fields(pack, idx))
+NoHist == [form |-> "none", pack |-> 0]
+Histories == {NoHist} \cup (IF Hist THEN [form : {"fwd", "typedef", "ptr", "realized"}, pack : {0, 1, 2, 4}] ELSE {})
+\* a node with its declaration history (pack = the option of the defining cdef)
+NodeH(k, p, fs) == IF hist = NoHist THEN Node(k, p, fs) ELSE [kind |-> k, pack |-> p, fields |-> fs, hist |-> hist]
+TheNode == NodeH(kind, pack, Fields(pack, idx))
 
 \* Both machines advance in lockstep, one member per step:
 \*   mst  state of cffi's loop (byteoffset, bitoffset, alignment, byteoffsetmax, ...)
@@ -70,10 +77,11 @@ Init == /\ kind \in {"struct", "union"}
         /\ mst = CffiInit
         /\ ist = AbiInit
         /\ cls = FALSE
+        /\ hist \in Histories
 
 AddField(i) ==
   LET f  == Alphabet(pack)[i]
-      nd == Node(kind, pack, <<>>)        \* the steps only look at kind and pack
+      nd == NodeH(kind, pack, <<>>)       \* the steps only look at kind, pack and the history
   IN
   /\ Len(idx) < MaxFields
   /\ (Len(idx) > 0 => Alphabet(pack)[idx[Len(idx)]].t.c # "flex")     \* nothing follows T x[]
@@ -81,8 +89,8 @@ AddField(i) ==
   /\ mst' = CffiStep(Cx(nd), mst, f, f.t.c = "flex")
   /\ ist' = AbiMember(nd, ist, f)
   /\ cls' = InClass(Node(kind, pack, Fields(pack, idx')))
-  /\ (Len(idx') <= PrintUpTo /\ cls' => PrintT(<<"DECL", kind, pack, idx'>>))
-  /\ UNCHANGED <<kind, pack>>
+  /\ (Len(idx') <= PrintUpTo /\ cls' => PrintT(<<"DECL", kind, pack, idx', hist>>))
+  /\ UNCHANGED <<kind, pack, hist>>
 
 Next == \E i \in 1..Len(Alphabet(pack)) : AddField(i)
 Spec == Init /\ [][Next]_vars
